@@ -22,6 +22,7 @@ import (
 	"math"
 	"os"
 	"os/exec"
+	"path/filepath"
 	"runtime/debug"
 	"sort"
 	"strings"
@@ -452,12 +453,24 @@ func main() {
 		wg.Wait()
 		return bad == 0, fmt.Sprintf("%s: %d of 80000 concurrent calls differ (free-running, not exhaustive over schedules)", c.Value.Short(), bad)
 	})
+	r.Replayer("sched", func(raw json.RawMessage) (bool, string) {
+		bin := filepath.Join(common.Root(), "work", "bin", "c06s")
+		out, err := exec.Command(bin, "--replay-case", string(raw)).CombinedOutput()
+		if err != nil {
+			if ee, ok := err.(*exec.ExitError); ok && ee.ExitCode() == 1 {
+				return false, string(out)
+			}
+			common.Machinery("schedule replay: %v %s", err, out)
+		}
+		return true, string(out)
+	})
 	r.MaybeReplay()
 
 	r.Assume("identity is structural via exported accessors: (type,id); (id, kind, instant regardless of zone); (literal type, value; float64 by IEEE bits, NaN excluded from pairs); object = kind of boxed value + boxed value; triple = its three parts")
 	r.Assume("pairs are formed within each family of values that can occupy the same slot: node x node, predicate x predicate, literal x literal, object x object (this is where 'of the same kind' has force: an object boxes a node, a literal or a predicate, and Object.UUID is documented to be the UUID of the boxed value), triple x triple; a bare node is not compared with a bare predicate")
 	r.Assume("triples combine a colliding subject only with plain objects and vice versa, so a failing triple pair is attributable to one family; triples combining two colliding families are not explored")
-	r.Assume("'every goroutine': each UUID table is recomputed concurrently by 8 free-running goroutines (they share the sync.Pool buffers) and compared with the sequential table; this is NOT exhaustive over schedules (the statement-granular schedule search is a separate engine, not part of this check)")
+	r.Assume("'every goroutine', decided part: the schedule part (cmd/c06s, keys sched_*) runs two or three threads computing UUIDs / Triple.Equal of different values on the instrumented triple, literal and predicate packages with sync.Pool modelled (LIFO hand-out; scheduling points in front of Get and Put and after Put) and executes every schedule up to the deviation bound; triple/node is not instrumented (its pool is the real one)")
+	r.Assume("'every goroutine', validated part: each UUID table is also recomputed concurrently by 8 free-running goroutines (they share the sync.Pool buffers) and compared with the sequential table; this part is NOT exhaustive over schedules")
 	r.Assume("'every process': a second process of this same binary on this machine recomputes the whole table")
 
 	th := r.Thorough()
@@ -587,6 +600,9 @@ func main() {
 	wg.Wait()
 	r.Set("concurrent_recomputations", 8*3*total)
 
+	// -- stability: every schedule of small concurrent scenarios (vsched engine)
+	r.Set("schedule_part", runSchedulePart(r))
+
 	// -- stability: second process
 	out, err := childUUID("--dump-uuids", r.Tier)
 	if err != nil {
@@ -618,4 +634,37 @@ func main() {
 	r.Sample(paircase{u.specs[3][1], u.specs[3][len(u.specs[3])/2]})
 	r.Set("rule", "all ordered pairs (x,y) within each family (node, predicate, literal, object, triple): UUID(x)=UUID(y) <=> same kind and structurally equal (anchors as instants), Triple.Equal likewise; UUID defined (no panic, 16 bytes) and identical on 3 calls for every universe value and the int64/float64 boundary sets; table identical when recomputed by 8 concurrent goroutines and by a second process; distinct_nontrivial = ordered pairs of distinct universe entries that are structurally equal")
 	r.Finish()
+}
+
+// runSchedulePart runs the vsched scenarios binary (cmd/c06s) and folds its verdict into this run.
+func runSchedulePart(r *common.Run) string {
+	bin := filepath.Join(common.Root(), "work", "bin", "c06s")
+	if _, err := os.Stat(bin); err != nil {
+		common.Machinery("schedule part not built: %v", err)
+	}
+	cmd := exec.Command(bin, r.Tier, "--sub")
+	cmd.Env = append(os.Environ(), "VERIF_ROOT="+common.Root())
+	out, err := cmd.CombinedOutput()
+	for _, l := range strings.Split(string(out), "\n") {
+		if strings.HasPrefix(l, "SUB-FAIL ") {
+			var f common.Failure
+			if json.Unmarshal([]byte(l[len("SUB-FAIL "):]), &f) == nil {
+				r.Fail(f)
+			}
+		}
+		if strings.HasPrefix(l, "SUB-COV ") {
+			var m map[string]interface{}
+			if json.Unmarshal([]byte(l[len("SUB-COV "):]), &m) == nil {
+				for k, v := range m {
+					r.Set("sched_"+k, v)
+				}
+			}
+		}
+	}
+	if err != nil {
+		if ee, ok := err.(*exec.ExitError); !ok || ee.ExitCode() != 1 {
+			common.Machinery("schedule part failed: %v %s", err, string(out))
+		}
+	}
+	return "ran"
 }
